@@ -200,7 +200,7 @@ func trunc(s string, n int) string {
 
 func c03plan(tier string, seed int64) []run.Job {
 	var jobs []run.Job
-	nr, per := 16, 150
+	nr, per := 16, 500
 	if tier == "thorough" {
 		nr, per = 64, 600
 	}
